@@ -413,6 +413,22 @@ func (ctx Ctx) isPkg(e ast.Expr, name string) bool {
 	return specialPackages[pkgName.Imported().Path()] == name
 }
 
+// checkNotEvaluated reports arguments that goose drops although evaluating
+// them calls a function, which the program would no longer do
+func (ctx Ctx) checkNotEvaluated(call *ast.CallExpr, args []ast.Expr) {
+	for _, arg := range args {
+		if ctx.hasCall(arg) {
+			ctx.unsupported(call, "logging call with an argument that calls a function (the arguments are not evaluated)")
+		}
+	}
+}
+
+// loggingStmt translates a call that only prints: it is kept as a comment
+func (ctx Ctx) loggingStmt(call *ast.CallExpr, args []ast.Expr) coq.Expr {
+	ctx.checkNotEvaluated(call, args)
+	return coq.LoggingStmt{GoCall: ctx.printGo(call)}
+}
+
 func (ctx Ctx) packageMethod(f *ast.SelectorExpr,
 	call *ast.CallExpr) coq.Expr {
 	args := call.Args
@@ -458,7 +474,7 @@ func (ctx Ctx) packageMethod(f *ast.SelectorExpr,
 	if ctx.isPkg(f.X, "log") {
 		switch f.Sel.Name {
 		case "Print", "Printf", "Println":
-			return coq.LoggingStmt{GoCall: ctx.printGo(call)}
+			return ctx.loggingStmt(call, args)
 		}
 	}
 	// FIXME: this hack ensures util.DPrintf runs correctly in goose-nfsd.
@@ -469,6 +485,7 @@ func (ctx Ctx) packageMethod(f *ast.SelectorExpr,
 	//
 	// See https://github.com/mit-pdos/goose-nfsd/blob/master/util/util.go
 	if isIdent(f.X, "util") && f.Sel.Name == "DPrintf" && ctx.isVariadic(call) {
+		ctx.checkNotEvaluated(call, args[2:])
 		return coq.NewCallExpr(coq.GallinaIdent("util.DPrintf"),
 			ctx.expr(args[0]),
 			ctx.expr(args[1]),
@@ -477,7 +494,7 @@ func (ctx Ctx) packageMethod(f *ast.SelectorExpr,
 	if ctx.isPkg(f.X, "fmt") {
 		switch f.Sel.Name {
 		case "Println", "Printf":
-			return coq.LoggingStmt{GoCall: ctx.printGo(call)}
+			return ctx.loggingStmt(call, args)
 		}
 	}
 	if ctx.isPkg(f.X, "sync") {
@@ -1380,7 +1397,12 @@ func (ctx Ctx) funcLit(e *ast.FuncLit) coq.FuncLit {
 func (ctx Ctx) exprSpecial(e ast.Expr, isSpecial bool) coq.Expr {
 	switch e := e.(type) {
 	case *ast.CallExpr:
-		return ctx.callExpr(e)
+		x := ctx.callExpr(e)
+		if _, ok := x.(coq.LoggingStmt); ok {
+			// only a comment is left of the call
+			ctx.unsupported(e, "using the results of a logging call")
+		}
+		return x
 	case *ast.MapType:
 		return ctx.mapType(e)
 	case *ast.Ident:
@@ -2131,7 +2153,12 @@ func (ctx Ctx) stmtInBlock(s ast.Stmt, usage ExprValUsage) (coq.Binding, bool) {
 	case *ast.GoStmt:
 		binding = coq.NewAnon(ctx.goStmt(s))
 	case *ast.ExprStmt:
-		binding = coq.NewAnon(ctx.expr(s.X))
+		if call, ok := s.X.(*ast.CallExpr); ok {
+			// (a logging call is a statement of its own)
+			binding = coq.NewAnon(ctx.callExpr(call))
+		} else {
+			binding = coq.NewAnon(ctx.expr(s.X))
+		}
 	case *ast.AssignStmt:
 		binding = ctx.assignStmt(s)
 	case *ast.DeclStmt:
